@@ -305,3 +305,31 @@ def invs(evs):
 
 def cbs(evs, name=None):
     return [e[1:] for e in evs if e[0] == "cb" and (name is None or e[1] == name)]
+
+
+# ---------------------------------------------------------------- SDO helpers
+def sdo_write(sim, nid, idx, sub, value, width, srv=0):
+    """Expedited download through the real server; returns (abort code or None, events)."""
+    cmd = 0x23 | ((4 - width) << 2)
+    frame = bytes([cmd, idx & 0xFF, idx >> 8, sub]) + (value & 0xFFFFFFFF).to_bytes(4, "little")
+    evs = sim.rx(0x600 + 0x10 * srv + nid, frame)
+    for (t, cid, dlc, d, f) in txs(evs):
+        if cid == 0x580 + 0x10 * srv + nid and len(d) == 8:
+            if d[0] == 0x80:
+                return int.from_bytes(d[4:8], "little"), evs
+            if d[0] == 0x60:
+                return None, evs
+    return "noresponse", evs
+
+
+def sdo_read(sim, nid, idx, sub, srv=0):
+    """Expedited upload; returns (value or ('abort', code) or None, events)."""
+    evs = sim.rx(0x600 + 0x10 * srv + nid, bytes([0x40, idx & 0xFF, idx >> 8, sub, 0, 0, 0, 0]))
+    for (t, cid, dlc, d, f) in txs(evs):
+        if cid == 0x580 + 0x10 * srv + nid and len(d) == 8:
+            if d[0] == 0x80:
+                return ("abort", int.from_bytes(d[4:8], "little")), evs
+            if (d[0] & 0xE3) == 0x43:
+                n = (d[0] >> 2) & 3
+                return int.from_bytes(d[4:8 - n], "little"), evs
+    return None, evs
